@@ -144,7 +144,14 @@ class Reader(object):
             if name == 'param':
                 r = scope.get(v.get('ref'))
                 if isinstance(r, list):
-                    return (['color'] + r + [0.0] * max(0, 3 - len(r)) + [1.0] * (1 if len(r) <= 3 else 0))[:5] if len(r) != 1 else ['float', r[0]]
+                    if len(r) == 1:
+                        return ['float', r[0]]
+                    c = list(r)
+                    while len(c) < 3:
+                        c.append(0.0)
+                    while len(c) < 4:
+                        c.append(1.0)
+                    return ['color'] + c
                 return None
             raise Unreadable('shading value ' + name)
         for prop in ('emission', 'ambient', 'diffuse', 'specular', 'shininess', 'reflective', 'reflectivity', 'transparent',
@@ -370,7 +377,7 @@ class Reader(object):
                 children.append(dict(kind='LightNode', light=[u, u in ids['lights']]))
             elif name == 'instance_node':
                 u = c.get('url')[1:]
-                children.append(dict(kind='NodeNode', node=[u, u in ids['nodes']]))
+                children.append(dict(kind='NodeNode', node=[u, u in ids['libnodes']]))
             elif name == 'extra':
                 children.append(dict(kind='ExtraNode'))
         nid = n.get('id')
@@ -394,6 +401,7 @@ class Reader(object):
             lights=[l.get('id') for l in self.libs('library_lights', 'light')],
             cameras=[c.get('id', '') for c in self.libs('library_cameras', 'camera')],
             nodes=[n.get('id') for n in self.libs('library_nodes', 'node')],
+            libnodes=[n.get('id') for n in self.libs('library_nodes', 'node')],
         )
         anims = []
         for a in self.libs('library_animations', 'animation'):
